@@ -36,7 +36,7 @@ package benchseries
 //@ func concat(a, b []float64) (c []float64)
 //@   props C18
 //@   opt allocates
-//@   ensures len(c) == len(a) + len(b)
+//@   ensures len(c) == len(a) + len(b) && (len(c) == 0 || fresh(c))
 //@   ensures forall i int :: 0 <= i < len(a) ==> bits(c[i], a[i])
 //@   ensures forall i int :: 0 <= i < len(b) ==> bits(c[len(a)+i], b[i])
 
@@ -101,3 +101,17 @@ package benchseries
 //@   loop 1:
 //@     invariant 0 <= i <= N && N == len(ratios) && unchanged(ratios) && fresh(rnu) && fresh(rde) && len(rnu) == len(nu.Values) && len(rde) == len(de.Values) && ref(rnu) != ref(rde)
 //@     decreases N - i
+
+// ComparisonAt / SummaryAt: the point of the series for (benchmark, series), if any.
+//@ func (cs *ComparisonSeries) ComparisonAt(benchmark, series string) (c *Comparison, ok bool)
+//@   props C18
+//@   requires cs != nil
+//@   ensures ok <==> (has(cs.cells, mkstruct(SeriesKey, benchmark, series)) && cs.cells[mkstruct(SeriesKey, benchmark, series)] != nil)
+//@   ensures ok ==> c == cs.cells[mkstruct(SeriesKey, benchmark, series)]
+//@   ensures !ok ==> c == nil
+//@ func (cs *ComparisonSeries) SummaryAt(benchmark, series string) (s *ComparisonSummary, ok bool)
+//@   props C18
+//@   requires cs != nil
+//@   ensures ok <==> (has(cs.cells, mkstruct(SeriesKey, benchmark, series)) && cs.cells[mkstruct(SeriesKey, benchmark, series)] != nil)
+//@   ensures ok ==> s == cs.cells[mkstruct(SeriesKey, benchmark, series)].Summary
+//@   ensures !ok ==> s == nil
